@@ -11,6 +11,7 @@ KINDS = {
     "C08": {"tfree": {"lost", "leak", "livelock"}},
     "C09": {"exit": {"content", "overlap", "crash", "abandoned-leak", "leak", "livelock", "fail"}},
     "C10": {"heap": {"content", "overlap", "crash", "leak", "livelock", "fail"}},
+    "C12": {"exit": {"abandoned-visit"}},
 }
 
 
@@ -28,7 +29,7 @@ def run_one(exe, mode, seed, nthreads, nops, env=None, log=False, timeout=120):
     e = vlib.clean_env()
     if env: e.update(env)
     try:
-        p = subprocess.run(cmd, stdout=subprocess.PIPE, stderr=subprocess.PIPE, timeout=timeout, env=e, text=True, errors="replace")
+        p = subprocess.run(cmd, stdout=subprocess.PIPE, stderr=subprocess.PIPE, preexec_fn=vlib._limits, timeout=timeout, env=e, text=True, errors="replace")
         return p.returncode, p.stdout
     except subprocess.TimeoutExpired as ex:
         o = ex.stdout or b""
